@@ -158,7 +158,8 @@ class ExpandedTraceback:
         # A SyntaxError has to be handled differently to actually get its output:
         # https://docs.python.org/3/library/traceback.html#traceback.print_exception
         if isinstance(self.exception, SyntaxError):
-            offset = self.exception.offset
+            # A SyntaxError raised by hand (or for a NUL byte) has no position
+            offset = self.exception.offset if self.exception.offset is not None else 1
             if IS_AT_LEAST_PYTHON_310 and not IS_SKULPT:
                 end_lineno = self.exception.end_lineno
                 end_offset = offset if self.exception.end_offset not in {None, 0} else offset
